@@ -83,6 +83,26 @@ def runModel : Heap → List Op → List String → List String → (List String
     | none => ((("HANG") :: acc).reverse, tg')
     | some h' => runModel h' rest (dump h' :: acc) tg'
 
+/-- wire mode: dumps after every frame until the frame reader is gone -/
+def runWire : Conn → List Op → List String → List String → (List String × List String)
+  | _, [], acc, tg => (acc.reverse, tg)
+  | c, o :: rest, acc, tg =>
+    if c.gone then (acc.reverse, tg)
+    else
+      let tg' := match o with
+        | .new id (some (d, e, _)) =>
+          if id != 0 && !c.goAway && id % 2 == 1 && (openNode c.heap id).isNone && id > maxId c.heap then
+            tg ++ (if d == id then ["hdr-self"] else []) ++ tagsOf (c.heap ++ [{ id := id, parent := none, weight := 0, isOpen := true }]) id d e
+          else tg ++ (if (openNode c.heap id).isSome && !c.goAway then ["trailers-reset"] else ["open-rejected"])
+        | .prio id d e _ => if id != 0 then tg ++ tagsOf c.heap id d e else tg
+        | .close id => if (parOf c.heap id).isSome || c.heap.any (fun n => n.parent == some id) then tg ++ ["close-linked"] else tg
+        | _ => tg
+      match wireStep c o with
+      | none => ((("HANG") :: acc).reverse, tg')
+      | some c' =>
+        let tg'' := tg' ++ (if c'.gone && !c.gone then ["reader-gone"] else []) ++ (if c'.goAway && !c.goAway then ["goaway"] else [])
+        runWire c' rest (dump c'.heap :: acc) tg''
+
 /-- the oracle: every dumped heap of the implementation is acyclic and closed. -/
 def oracle (impl : String) : String :=
   if impl == "HANG" then "FAIL:cycle-hang"
@@ -97,6 +117,13 @@ def oracle (impl : String) : String :=
       else "ok"
 
 def run (op impl : String) : Ans :=
+  if op.startsWith "W;" then
+    match parseOps (op.drop 2).toString with
+    | none => { model := "bad-op", verdict := "skip" }
+    | some ops =>
+      let (outs, tg) := runWire ⟨[], false, false⟩ ops [] []
+      { model := ";".intercalate outs, verdict := oracle impl, tags := (["wire"] ++ tg).eraseDups }
+  else
   match parseOps op with
   | none => { model := "bad-op", verdict := "skip" }
   | some ops =>
